@@ -121,10 +121,28 @@ def V():
     return Obj(**_mods)
 
 
+class RealFunctionError(Exception):
+    """an exception of a REAL function under correspondence that the model has no counterpart for"""
+
+
+def guarded(fn):
+    def w(*a, **k):
+        try:
+            return fn(*a, **k)
+        except Exception as ex:
+            import traceback
+            tb = traceback.extract_tb(ex.__traceback__)
+            raise RealFunctionError("%s raised %s: %s at %s (arguments %r)" % (
+                fn.__name__, type(ex).__name__, ex, ["%s:%d" % (os.path.basename(f.filename), f.lineno) for f in tb][-2:], a)) from ex
+    w.__name__ = fn.__name__
+    return w
+
+
 def ints(l):
     return [int(x) for x in l]
 
 
+@guarded
 def real_transform(c):
     v = V()
     s, e, hs, sy, sx, skirt, ifm, bt, concat, kdh = c[0:4], c[4:8], c[8], c[9], c[10], c[11:15], c[15:19], c[19], c[20:24], c[24]
@@ -139,6 +157,7 @@ def real_transform(c):
     return [1] + ints(box.start_coord) + ints(box.end_coord) + [int(pt), int(pb)]
 
 
+@guarded
 def real_create_padding(c):
     v = V()
     vp, tile, ep, fi, la, cpt, cpb, hro, off, shp, ifm_w, bx0, bx1 = c[0], c[1], c[2:6], c[6], c[7], c[8], c[9], c[10], c[11], c[12], c[13], c[14], c[15]
@@ -152,6 +171,7 @@ def real_create_padding(c):
     return [int(p.top), int(p.left), int(p.bottom), int(p.right)]
 
 
+@guarded
 def real_padding_and_skirt(ptype, w, h, sx, sy, dx, dy, in_h, in_w, ep):
     """returns (model case, real result)"""
     v = V()
@@ -170,6 +190,7 @@ def real_padding_and_skirt(ptype, w, h, sx, sy, dx, dy, in_h, in_w, ep):
     return case, out
 
 
+@guarded
 def real_pad_helpers(c):
     v = V()
     i, s, f, pb, pa = c
@@ -177,6 +198,7 @@ def real_pad_helpers(c):
     return [int(v.gu.needed_total_padding(i, s, f)), int(a), int(b)]
 
 
+@guarded
 def real_ifm_area(c):
     v = V()
     oh, ow, sy, sx, kh, kw, dy, dx, rm = c
@@ -185,6 +207,7 @@ def real_ifm_area(c):
     return [oh, ow, sy, sx, kern.area_height(), kern.area_width(), rm], [int(w1), int(h1)]
 
 
+@guarded
 def real_rb_shape(c):
     v = V()
     ph, pw, pd, ch, cw = c
@@ -192,6 +215,7 @@ def real_rb_shape(c):
     return ints(r.as_list())
 
 
+@guarded
 def real_rolling(fmt, es, shape, storage_h, standard, base, s, e):
     """Tensor of `shape` (4-D), format fmt (1 NHWC, 2 NHCWB16), element size es; rolling buffer of storage_h rows unless
     standard.  Returns (strides case, real strides, addresses case, real addresses result)"""
@@ -241,7 +265,7 @@ def run_real_generator(ops):
     for i, o in enumerate(ops):
         weight = Obj(shape=[o["k_h"], o["k_w"], 1, 1], name="w")
         ifm_t, ofm_t = Obj(name="ifm%d" % i), Obj(name="ofm%d" % i)
-        attrs = {"dilation": (1, o["dil_h"], 1, 1), "ksize": (1, o["k_h"], o["k_w"], 1)}
+        attrs = {"dilation": (1, o["dil_h"], o.get("dil_w", 1), 1), "ksize": (1, o["k_h"], o["k_w"], 1)}
         if o["skirt"] is not None:
             attrs["skirt"] = tuple(o["skirt"])
         pooling = o["bt"] in (BT_POOL, BT_RS)
@@ -254,7 +278,7 @@ def run_real_generator(ops):
                  ofm_shapes=[S(*o["ofm"])], name="pass%d" % i)
         so = Obj(parent_ps=ps, parent_op=parent_op, reversed_operands=False,
                  ifm=Obj(shape=S(*o["ifm"]), connection=Obj(producers=[sched_ops[i - 1]] if i else [])), ifm2=None,
-                 ofm=Obj(shape=S(*o["ofm"])), kernel=Obj(stride=Obj(x=o["sx"], y=o["sy"])),
+                 ofm=Obj(shape=S(*o["ofm"])), kernel=v.op.Kernel(o["k_w"], o["k_h"], o["sx"], o["sy"], o.get("dil_w", 1), o["dil_h"]),
                  op_type=v.op.Op.Conv2DBias, resampling_mode=v.rm(o["up_mode"]), index=i)
         sched_ops.append(so)
         cost_map[so] = Obj(cascade=casc, block_config=Obj(old_style_representation=lambda: [1, 1, 1, 1]),
@@ -269,6 +293,10 @@ def run_real_generator(ops):
                         ints(cmd.ifm_box.start_coord), ints(cmd.ifm_box.end_coord), int(cmd.pad_top), int(cmd.pad_bottom)))
     except (AssertionError, ValueError):
         return ("assert",)
+    except Exception as ex:   # anything else the real generator raises on the stubs: a correspondence break, not a crash
+        import traceback
+        tb = traceback.extract_tb(ex.__traceback__)
+        return ("exception", "%s: %s at %s" % (type(ex).__name__, ex, ["%s:%d" % (os.path.basename(f.filename), f.lineno) for f in tb][-2:]))
     return out
 
 
@@ -416,9 +444,21 @@ def steps_for(Ho, rng, tier):
 
 
 def run(tier):
-    v = V()
     res = vlib.Result("C10", tier, "proof")
     b = vlib.build_property("C10")
+    try:
+        return _run(tier, res, b)
+    except RealFunctionError as ex:
+        # a real function driven through stubs / generated arguments failed in a way the model does not know: the
+        # correspondence no longer holds; reported through the protocol (DESIGN.md section 5), never as a check error
+        vlib.proof_coverage(res, b, [])
+        res.violation({"correspondence": "real function raised", "function": str(ex).split(" ")[0]}, {"exception": str(ex)},
+                      "correspondence of the Stripe model with the real code no longer holds: " + str(ex)[:400], no_input=True)
+        return res.finish()
+
+
+def _run(tier, res, b):
+    v = V()
     vlib.proof_coverage(res, b, [
         "extraction (ExtrOcamlBasic only) + ocaml/driver.ml for the correspondence runs",
         "coq/model/Stripe.v hw_tap / ref_tap: the hardware tap semantics (IFM extent (n-1)*s + k_dilated - pads as in "
@@ -799,15 +839,18 @@ def run(tier):
     # ---------------------------------------------------------------- 7. the real generator: loops, partition, interleaving, rolling buffer
     gen_specs = []
 
-    def conv_op(H, W, D, k, d, s, pad, t=0, bb=0, stripe_h=None, slices=None, woff=None, wshape=None, ofm_full=None, bt=BT_CONV, up=0):
-        kd = d * (k - 1) + 1
+    def conv_op(H, W, D, k, d, s, pad, t=0, bb=0, stripe_h=None, slices=None, woff=None, wshape=None, ofm_full=None, bt=BT_CONV, up=0,
+                kw=None, dw=None):
+        """kw/dw: kernel width and width dilation when they differ from the height's (k, d)"""
+        kw, dw = kw or k, dw or d
+        kd, kdw = d * (k - 1) + 1, dw * (kw - 1) + 1
         Ho = out_size(H, kd, s, pad, t, bb) if not up else 2 * H
-        Wo = out_size(W, kd, s, pad, t, bb) if not up else 2 * W
+        Wo = out_size(W, kdw, s, pad, 0 if kw != k else t, 0 if kw != k else bb) if not up else 2 * W
         if Ho < 1 or Wo < 1:
             return None
-        _, ps = real_padding_and_skirt(PADCODE[pad], k, k, s, s, d, d, H, W, (t, t, bb, bb))
+        _, ps = real_padding_and_skirt(PADCODE[pad], kw, k, s, s, dw, d, H, W, (t, 0 if kw != k else t, bb, 0 if kw != k else bb))
         ofm = ofm_full or [1, Ho, Wo, D]
-        return dict(ifm=[1, H, W, D], ofm=ofm, k_h=k, k_w=k, sy=s, sx=s, dil_h=d, skirt=ps[5:9], padding=ps[1:5], bt=bt,
+        return dict(ifm=[1, H, W, D], ofm=ofm, k_h=k, k_w=kw, sy=s, sx=s, dil_h=d, dil_w=dw, skirt=ps[5:9], padding=ps[1:5], bt=bt,
                     stripe=[1, stripe_h or Ho, ofm[2], ofm[3]], slices=slices or [0, ofm[3]], woff=woff, wshape=wshape, roff=None, rshape=None,
                     up_mode=up, k=k, d=d, s=s, pad=pad, t=t, b=bb, Ho=Ho, Wo=Wo)
 
@@ -832,8 +875,17 @@ def run(tier):
     casc_geo = [(10, 3, 1, 3, "SAME")] + list(itertools.product(range(4, 14 if tier == "quick" else 22), (1, 2, 3, 5), (1, 2), (1, 2, 3), ("SAME", "VALID")))
     for _ in range(40 if tier == "quick" else 1500):
         casc_geo.append((rng.randrange(14, 120), rng.choice([1, 2, 3, 4, 5, 7]), rng.choice([1, 1, 2]), rng.choice([1, 2, 3]), rng.choice(["SAME", "VALID"])))
-    for (H, k, d, s, pad) in casc_geo:
-        cons = conv_op(H, 6, 16, k, d, s, pad)
+    # height and width of the kernel / of the dilation differ (the height values must be the ones that reach pad_top/pad_bottom)
+    asym = [(H, k, d, s, pad, kw, dw) for H in ((7, 12) if tier == "quick" else (7, 9, 12, 20)) for (k, kw) in ((3, 3), (3, 1), (2, 5), (5, 3))
+            for (d, dw) in ((2, 1), (1, 2), (2, 2)) for s in (1, 2) for pad in ("SAME", "VALID") if not (k == kw and d == dw)]
+    for (H, k, d, s, pad, kw, dw) in asym:
+        for sh in (1, 2, 3, 100):
+            o = conv_op(H, 12, 16, k, d, s, pad, stripe_h=sh, kw=kw, dw=dw)
+            if o:
+                gen_specs.append([o])
+    casc_geo = [g + (None, None) for g in casc_geo] + asym
+    for (H, k, d, s, pad, kw, dw) in casc_geo:
+        cons = conv_op(H, 6 if kw is None else 12, 16, k, d, s, pad, kw=kw, dw=dw)
         if not cons or cons["Ho"] < 2:
             continue
         hcs = range(1, cons["Ho"]) if H <= 10 else sorted({1, 2, rng.randrange(1, cons["Ho"])})
@@ -844,18 +896,19 @@ def run(tier):
                     hp += hp % 2
                     if hp == hc * s:
                         continue
-                prod = conv_op(H, 6, 16, 3, 1, 1, "SAME", stripe_h=hp, slices=[0, 8, 16] if (H + hc) % 3 == 0 else None)
+                prod = conv_op(H, 6 if kw is None else 12, 16, 3, 1, 1, "SAME", stripe_h=hp, slices=[0, 8, 16] if (H + hc) % 3 == 0 else None)
                 c2 = dict(cons, stripe=[1, hc, cons["ofm"][2], cons["ofm"][3]])
                 if prod["stripe"][1] >= H:
                     continue
                 spec = [prod, c2]
                 if (H + k + hc) % 4 == 0 and H <= 16:
-                    head = conv_op(H, 6, 16, 3, 1, 1, "SAME", stripe_h=hp)
+                    head = conv_op(H, 6 if kw is None else 12, 16, 3, 1, 1, "SAME", stripe_h=hp)
                     spec = [head] + spec
                 gen_specs.append(spec)
     gen_diffs = 0
     overruns = 0
     tail_gaps = 0
+    gen_exceptions = []
     gen_model = model_generator_batch(gen_specs) if okx else [None] * len(gen_specs)
     gen_real = [run_real_generator(spec) for spec in gen_specs]
     for spec, real, mod in zip(gen_specs, gen_real, gen_model):
@@ -865,6 +918,11 @@ def run(tier):
                 gen_diffs += 1
                 note_diff("generator", {"ops": [{k_: v_ for k_, v_ in o.items() if k_ not in ("padding",)} for o in spec]},
                           mod if mod == ("assert",) else [list(x) for x in mod][:12], real if real == ("assert",) else [list(x) for x in real][:12])
+        if real and real[0] == "exception":
+            gen_exceptions.append(real[1])
+            note_diff("generator", {"ops": [{k_: v_ for k_, v_ in o.items() if k_ not in ("padding",)} for o in spec]},
+                      "model: %d commands" % (len(mod) if mod else 0), "real generator raised " + real[1])
+            continue
         if real == ("assert",):
             finding({"kind": "generator_assertion"}, {"ops": spec}, "the generator raises on a valid schedule")
             continue
@@ -958,6 +1016,8 @@ def run(tier):
         hin = min(real_ifm_area([cons["stripe"][1], 1, cons["sy"], 1, cons["k_h"], 1, cons["dil_h"], 1, 0])[1][1], cons["ifm"][1])
         hb = real_rb_shape([prod["stripe"][1], 1, 1, hin, 1])[1]
         real = real_of[id(spec)]
+        if real and real[0] in ("exception", "assert"):
+            continue
         ncorr["cascade state machine"] += 1
         ok_real = True
         mem = {}
@@ -1123,7 +1183,7 @@ def run(tier):
         "correspondence_cases": dict(ncorr), "model_vs_impl_differences": {k_: v_ for k_, v_ in diffs.items()},
         "samples": samples + d2_samples,
         "programs": programs, "passes_checked": passes_checked, "stripes_checked": stripes_checked, "rolling_buffer_reads_checked": rolling_checked,
-        "generator_schedules": len(gen_specs), "cascades_with_overrun": overruns,
+        "generator_schedules": len(gen_specs), "real_generator_exceptions": gen_exceptions[:3], "cascades_with_overrun": overruns,
         "cascaded_producers_with_unread_tail_rows_not_produced": tail_gaps, "outside_model": dict(outside),
         "disagreements_checked": len(findings), "oracle_rejections_by_kind": dict(seen_kinds),
         "input_distribution": {"extents": "exhaustive 1..%d, random to 300" % (10 if tier == "quick" else 12), "kernel": "1..4 exhaustive, to 8 random",
